@@ -43,7 +43,8 @@ fn run_bin(bin: &str, query: &str, mode: &str, input: &[u8]) -> Option<(Vec<u8>,
 
 /// queries that route data through every unordered container of the implementation
 fn query(r: &mut Rng) -> (String, &'static str) {
-    match r.below(16) {
+    match r.below(18) {
+        16 | 17 => ((*r.pick(&["* | json | sum(x) as s by k, b | sum(s) as total", "* | json | avg(x) as a by k, s | avg(a) as aa, sum(a) as sa", "* | json | sum(x) as s by s | sum(s) as total, count as groups", "* | json | avg(x) as a by k, b, s | p50(a) as med, sum(a) as sa", "* | json | sum(x) as s, count as c by s | sum(s) as t by c"])).to_string(), "agg-of-agg-float"),
         13 | 14 => ((*r.pick(&["* | json", "* | json | sort by n", "* | json | sort by n desc | limit 3", "* | json | fields except n", "* | json | count by n | sort by n"])).to_string(), "near-equal-field-names"),
         0 => ("* | json".into(), "nested-object-key-order"),
         1 => ("* | json | fields o, m, k".into(), "nested-object-key-order"),
@@ -85,6 +86,14 @@ pub fn check(ctx: &mut Ctx) {
         if family == "big-int-keys" {
             // 64-bit ids above 2^53 that are neighbours as integers but the same double
             input = (0..rows).map(|i| format!("{{\"big\":{},\"n\":{}}}\n", 1152921504606846976i64 + (i as i64 % 7), i % 3)).collect::<String>().into_bytes();
+        }
+        if family == "agg-of-agg-float" {
+            // many first-level groups whose non-integral values add up differently in different orders
+            let n = 12 + r.below(30);
+            input = (0..n)
+                .map(|i| format!("{{\"k\":\"{}\",\"b\":{},\"s\":\"w{}\",\"x\":{}.{}{}}}\n", r.pick(&["a", "b", "c", "d", "e"]), r.pick(&["true", "false", "null"]), i % 9, r.range(-50, 5000), r.range(0, 9), r.range(1, 9)))
+                .collect::<String>()
+                .into_bytes();
         }
         if family == "near-equal-field-names" {
             // sibling field names that a lossy sort key would tie (case, blanks, leading zeros,
